@@ -106,7 +106,7 @@ func cmdCheck(args []string) {
 	defer os.RemoveAll(dir)
 	cc.dir = dir
 	solvers := []string{"z3new", "cvc5", "z3"}
-	fns := e.selectFuncs(nil, prop, prop == "C01")
+	fns := e.selectFuncs(nil, prop, prop == "C01" && tier == "thorough" && os.Getenv("GOVC_SWEEP") != "")
 	cc.results = e.verifyAll(fns, dir, cc.perMs, solvers, tier == "thorough", 16)
 	cc.propertySpecific()
 	os.Exit(cc.report())
@@ -200,6 +200,11 @@ func (cc *checkCtx) report() int {
 		}
 		violations++
 		exit = 1
+		if violations > 6 {
+			// replay budget: further violations are reported without a model search
+			fmt.Printf("VIOLATION property=%s replay=%s obligation=%q result=%s no-failing-input-found\n", cc.prop, filepath.Join(verif, "replay", "budget-exceeded.json"), o.Name, o.Result)
+			continue
+		}
 		path, confirmed := cc.replay(o)
 		if confirmed {
 			fmt.Printf("VIOLATION property=%s replay=%s\n", cc.prop, path)
